@@ -131,10 +131,18 @@ def run(ctx):
     cov['transitions'] += layer['transitions']
     cov['traces_validated_against_impl'] += layer['replayed']
     rs = rounds(ctx)
-    with cf.ThreadPoolExecutor(max_workers=4) as ex:
-      futs = [ex.submit(svc.tlc_round, r['name'], r['consts'], d, r.get('expect', ())) for r in rs]
-      results = [f.result() for f in futs]
-    for r, (res, recs, outcomes) in zip(rs, results):
+    # thorough: at most two configurations' transitions in memory at a time (see svc.run_rounds)
+    ex = cf.ThreadPoolExecutor(max_workers=4 if not ctx.thorough else 1)
+    futs = {}
+
+    def start(i):
+      if i < len(rs) and i not in futs:
+        futs[i] = ex.submit(svc.tlc_round, rs[i]['name'], rs[i]['consts'], d, rs[i].get('expect', ()))
+    for i0 in range(len(rs) if not ctx.thorough else 1):
+      start(i0)
+    for i_r, r in enumerate(rs):
+      start(i_r + 1)
+      res, recs, outcomes = futs.pop(i_r).result()
       conf = speca.conf_of(r['consts'])
       cov['states'] += res.distinct
       cov['transitions'] += res.generated - 1
@@ -171,6 +179,8 @@ def run(ctx):
         cov['identical_divergences_all_backends'] = cov.get('identical_divergences_all_backends', 0) + agree_all
       if recs:
         ctx.sample({'config': r['name'], 'history': recs[(ctx.seed * 7919 + 3) % len(recs)]['hist']})
+      del recs
+    ex.shutdown(wait=True)
   with tlc.Scratch('c07d') as d2:
     ordered_differential(ctx, d2)
   # recorded walks: the same seeds on every backend, each validated by the trace spec
